@@ -1017,21 +1017,40 @@ theorem named_partial (env : Env) (e : Eff) (p : Nat) (s : St) (h : Named s) :
     Named (applyPartial env s e p) := by
   cases e <;> first | exact h | exact named_apply env _ s h
 
-/-- A predicate kept by every effect and every failing effect holds throughout `saveWith`. -/
-theorem saveWith_inv_all (env : Env) (body post : List Eff) {P : St → Prop}
-    (ha : ∀ e s, P s → P (apply env s e)) (hp : ∀ e p s, P s → P (applyPartial env s e p))
+/-- A predicate kept by every effect of a class `ok` (and by their failures) holds throughout
+`saveWith` when `mkdtemp`, the body, `replace`, the clean-up and `post` are all in the class. -/
+theorem saveWith_inv_all (env : Env) (body post : List Eff) {P : St → Prop} (ok : Eff → Bool)
+    (hbody : ∀ e ∈ body, ok e = true) (hpost : ∀ e ∈ post, ok e = true)
+    (hfix : ok .mkdtemp = true ∧ ok .replace = true ∧ ok .removeTmp = true ∧ ok .rmdirTmp = true)
+    (ha : ∀ e, ok e = true → ∀ s, P s → P (apply env s e))
+    (hp : ∀ e, ok e = true → ∀ p s, P s → P (applyPartial env s e p))
     (f : Nat → Option Nat) (n0 : Nat) (s0 : St) (h : P s0) :
     P (saveWith env body post f n0 s0).final ∧ ∀ st ∈ (saveWith env body post f n0 s0).steps, P st.st := by
-  have ra := runList_inv env f [.mkdtemp] n0 s0 h (fun e _ s hs => ha e s hs) (fun e _ s p hs => hp e p s hs)
+  have inv : ∀ (es : List Eff), (∀ e ∈ es, ok e = true) → ∀ n s, P s →
+      P (runList env f es n s).final ∧ ∀ st ∈ (runList env f es n s).steps, P st.st :=
+    fun es hes n s hs => runList_inv env f es n s hs (fun e he s hs => ha e (hes e he) s hs)
+      (fun e he s p hs => hp e (hes e he) p s hs)
+  have hA : ∀ e ∈ [Eff.mkdtemp], ok e = true := by
+    intro e he; simp at he; subst he; exact hfix.1
+  have hB : ∀ e ∈ body ++ [Eff.replace], ok e = true := by
+    intro e he
+    simp only [List.mem_append, List.mem_singleton] at he
+    rcases he with he | rfl
+    · exact hbody e he
+    · exact hfix.2.1
+  have hC : ∀ e ∈ [Eff.removeTmp, Eff.rmdirTmp], ok e = true := by
+    intro e he; simp at he; rcases he with rfl | rfl
+    · exact hfix.2.2.1
+    · exact hfix.2.2.2
+  have ra := inv [.mkdtemp] hA n0 s0 h
   unfold saveWith
   simp only []
   split
   · exact ra
-  · have rb := runList_inv env f (body ++ [.replace]) (n0 + 1) _ ra.1
-      (fun e _ s hs => ha e s hs) (fun e _ s p hs => hp e p s hs)
-    have rc := runList_inv env f [.removeTmp, .rmdirTmp]
+  · have rb := inv (body ++ [.replace]) hB (n0 + 1) _ ra.1
+    have rc := inv [.removeTmp, .rmdirTmp] hC
       (n0 + 1 + (runList env f (body ++ [.replace]) (n0 + 1) (runList env f [.mkdtemp] n0 s0).final).steps.length)
-      _ rb.1 (fun e _ s hs => ha e s hs) (fun e _ s p hs => hp e p s hs)
+      _ rb.1
     split
     · refine ⟨rc.1, ?_⟩
       intro st hst
@@ -1040,12 +1059,12 @@ theorem saveWith_inv_all (env : Env) (body post : List Eff) {P : St → Prop}
       · exact ra.2 st hst
       · exact rb.2 st hst
       · exact rc.2 st hst
-    · have rd := runList_inv env f post
+    · have rd := inv post hpost
         (n0 + 1 + (runList env f (body ++ [.replace]) (n0 + 1) (runList env f [.mkdtemp] n0 s0).final).steps.length +
           (runList env f [.removeTmp, .rmdirTmp]
             (n0 + 1 + (runList env f (body ++ [.replace]) (n0 + 1) (runList env f [.mkdtemp] n0 s0).final).steps.length)
             (runList env f (body ++ [.replace]) (n0 + 1) (runList env f [.mkdtemp] n0 s0).final).final).steps.length)
-        _ rc.1 (fun e _ s hs => ha e s hs) (fun e _ s p hs => hp e p s hs)
+        _ rc.1
       refine ⟨rd.1, ?_⟩
       intro st hst
       simp only [List.mem_append] at hst
@@ -1114,8 +1133,9 @@ theorem save_ok_wf (cfg : Cfg) (s0 : St) (h0 : WF s0) (n0 : Nat) (f : Nat → Op
   have hp := save_ok_post cfg s0 h0 n0 f hok
   have hr := save_afterReplace cfg s0 h0 n0
   refine ⟨?_, hp.frozen.tmp hr.tmp, by rw [hp.frozen.fd, hr.fd]⟩
-  exact (saveWith_inv_all cfg.env (tryBody cfg s0) (postEffs cfg s0) (P := Named)
-    (fun e s h => named_apply cfg.env e s h) (fun e p s h => named_partial cfg.env e p s h)
+  exact (saveWith_inv_all cfg.env (tryBody cfg s0) (postEffs cfg s0) (P := Named) (fun _ => true)
+    (fun _ _ => rfl) (fun _ _ => rfl) ⟨rfl, rfl, rfl, rfl⟩
+    (fun e _ s h => named_apply cfg.env e s h) (fun e _ p s h => named_partial cfg.env e p s h)
     f n0 s0 h0.named).1
 
 /-- What existed before is still there, same inode, same bytes, same mode. -/
@@ -1159,5 +1179,118 @@ theorem shardLoop_kept (newMode : Nat) (cb : Bool) (f : Nat → Option Nat) (s0 
       rcases hst with hst | hst
       · exact kept_trans hd hk (hsv.1 st hst)
       · exact ih.1 st hst
+
+
+/-! ### `unload_from_model`: loading the small external tensors first -/
+
+/-- The load phase touches neither the file system nor `_valid`. -/
+structure SameFS (s0 s : St) : Prop where
+  fs : s.fs = s0.fs
+  fd : s.fd = s0.fd
+  valid : s.valid = s0.valid
+  replaced : s.replaced = s0.replaced
+
+theorem loadEffs_mem : ∀ (small : List (Nat × Ext)) (e : Eff), e ∈ loadEffs small →
+    (∃ i x, e = .loadSmall i x) ∨ (∃ i, e = .release i)
+  | [], e, h => by simp [loadEffs] at h
+  | (i, x) :: r, e, h => by
+    simp only [loadEffs, List.mem_cons] at h
+    rcases h with rfl | rfl | h
+    · exact Or.inl ⟨i, x, rfl⟩
+    · exact Or.inr ⟨i, rfl⟩
+    · exact loadEffs_mem r e h
+
+theorem load_phase (env : Env) (f : Nat → Option Nat) (small : List (Nat × Ext)) (n : Nat) (s0 : St) :
+    SameFS s0 (runList env f (loadEffs small) n s0).final ∧
+    ∀ st ∈ (runList env f (loadEffs small) n s0).steps, SameFS s0 st.st := by
+  refine runList_inv env f (loadEffs small) n s0 ⟨rfl, rfl, rfl, rfl⟩ ?_ ?_
+  · intro e he s hs
+    rcases loadEffs_mem small e he with ⟨i, x, rfl⟩ | ⟨i, rfl⟩
+    · exact ⟨hs.fs, hs.fd, hs.valid, hs.replaced⟩
+    · exact ⟨hs.fs, hs.fd, hs.valid, hs.replaced⟩
+  · intro e he s p hs
+    rcases loadEffs_mem small e he with ⟨i, x, rfl⟩ | ⟨i, rfl⟩ <;> exact hs
+
+theorem sameFS_wf {s0 s : St} (h0 : WF s0) (h : SameFS s0 s) : WF s :=
+  ⟨by rw [h.fs]; exact h0.named, by rw [h.fs]; exact h0.fresh, by rw [h.fd]; exact h0.nofd⟩
+
+theorem sameFS_content {s0 s : St} (h : SameFS s0 s) (p : Path) : content s p = content s0 p := by
+  simp [content, h.fs]
+
+theorem tryBody_congr (cfg : Cfg) {s0 s : St} (h : s.fs = s0.fs) : tryBody cfg s = tryBody cfg s0 := by
+  simp [tryBody, overwritten, h]
+
+
+/-- Effects that leave the memory copies alone: everything except `loadSmall`. -/
+def Eff.noLoad : Eff → Bool
+  | .loadSmall _ _ => false
+  | _ => true
+
+theorem mem_apply (env : Env) (e : Eff) (he : e.noLoad = true) (s : St) : (apply env s e).mem = s.mem := by
+  cases e <;> first | rfl | (simp only [apply]; split <;> rfl) | simp [Eff.noLoad] at he
+
+theorem mem_partial (env : Env) (e : Eff) (he : e.noLoad = true) (p : Nat) (s : St) :
+    (applyPartial env s e p).mem = s.mem := by
+  cases e <;> first | rfl | exact mem_apply env _ rfl s
+
+theorem tryBody_noLoad (cfg : Cfg) (s0 : St) : ∀ e ∈ tryBody cfg s0, e.noLoad = true := by
+  intro e he
+  have := tryBody_tmpOnly cfg s0 e he
+  cases e <;> first | rfl | simp [Eff.tmpOnly] at this
+
+theorem postEffs_noLoad (cfg : Cfg) (s0 : St) : ∀ e ∈ postEffs cfg s0, e.noLoad = true := by
+  intro e he
+  simp only [postEffs, List.mem_map] at he
+  rcases he with ⟨i, _, rfl⟩
+  rfl
+
+/-- The save never touches the memory copies. -/
+theorem save_mem (cfg : Cfg) (f : Nat → Option Nat) (n0 : Nat) (s0 : St) :
+    (save cfg f n0 s0).final.mem = s0.mem ∧ ∀ st ∈ (save cfg f n0 s0).steps, st.st.mem = s0.mem :=
+  saveWith_inv_all cfg.env (tryBody cfg s0) (postEffs cfg s0) (P := fun s => s.mem = s0.mem) Eff.noLoad
+    (tryBody_noLoad cfg s0) (postEffs_noLoad cfg s0) ⟨rfl, rfl, rfl, rfl⟩
+    (fun e he s h => by rw [mem_apply cfg.env e he s]; exact h)
+    (fun e he p s h => by rw [mem_partial cfg.env e he p s]; exact h) f n0 s0 rfl
+
+theorem readT_congr {s0 s : St} (i : Nat) (e : Ext) (hfs : s.fs = s0.fs) (hv : s.valid = s0.valid)
+    (hm : s.mapped i = s0.mapped i) : readT s i e = readT s0 i e := by
+  simp [readT, hfs, hv, hm]
+
+/-- After the fault-free load phase every small tensor's memory copy is what the tensor read in
+the state the phase started from (ids pairwise distinct). -/
+theorem loads_spec (env : Env) (s0 : St) :
+    ∀ (small : List (Nat × Ext)) (s : St), (small.map (·.1)).Nodup → s.fs = s0.fs → s.valid = s0.valid →
+      (∀ p ∈ small, s.mapped p.1 = s0.mapped p.1) →
+      (∀ p ∈ small, (applyAll env (loadEffs small) s).mem p.1 = readT s0 p.1 p.2) ∧
+      (∀ k, k ∉ small.map (·.1) → (applyAll env (loadEffs small) s).mem k = s.mem k)
+  | [], s, _, _, _, _ => by simp [loadEffs, applyAll]
+  | (i, e) :: r, s, hnd, hfs, hv, hm => by
+    simp only [List.map_cons, List.nodup_cons] at hnd
+    have hstep : ∀ s1, s1 = apply env (apply env s (.loadSmall i e)) (.release i) →
+        s1.fs = s0.fs ∧ s1.valid = s0.valid ∧ (∀ p ∈ r, s1.mapped p.1 = s0.mapped p.1) ∧
+        s1.mem i = readT s0 i e ∧ (∀ k, k ≠ i → s1.mem k = s.mem k) := by
+      intro s1 h1
+      subst h1
+      refine ⟨by simpa [apply] using hfs, by simpa [apply] using hv, ?_, ?_, ?_⟩
+      · intro p hp
+        have hne : p.1 ≠ i := by
+          intro h; apply hnd.1; rw [← h]; exact List.mem_map_of_mem hp
+        simp only [apply, upd, hne, if_false]
+        exact hm p (by simp [hp])
+      · simp only [apply, upd_same]
+        exact readT_congr i e hfs hv (hm (i, e) (by simp))
+      · intro k hk; simp [apply, upd, hk]
+    have h1 := hstep _ rfl
+    have ih := loads_spec env s0 r _ hnd.2 h1.1 h1.2.1 h1.2.2.1
+    simp only [loadEffs, applyAll, List.foldl_cons] at ih ⊢
+    constructor
+    · intro p hp
+      simp only [List.mem_cons] at hp
+      rcases hp with rfl | hp
+      · rw [ih.2 _ hnd.1]; exact h1.2.2.2.1
+      · exact ih.1 p hp
+    · intro k hk
+      simp only [List.map_cons, List.mem_cons, not_or] at hk
+      rw [ih.2 k hk.2]; exact h1.2.2.2.2 k hk.1
 
 end IrVerif.AtomicSave
